@@ -165,10 +165,10 @@ var trueLevel = map[string]int{
 }
 
 type bspec struct {
-	op      string
-	lt, rt  byte
-	res     byte
-	core    bool
+	op     string
+	lt, rt byte
+	res    byte
+	core   bool
 }
 
 var bspecs = []bspec{
@@ -185,8 +185,8 @@ var bspecs = []bspec{
 }
 
 type uspec struct {
-	kind   byte
-	op     string
+	kind    byte
+	op      string
 	in, out byte
 }
 
@@ -591,7 +591,7 @@ func (s style) String() string {
 type printer struct {
 	st     style
 	leaves []leaf
-	ord    int // next leaf ordinal
+	ord    int  // next leaf ordinal
 	ci     uint // next optional-parenthesis index (parMask)
 	nopt   uint // number of optional parenthesis sites seen
 }
